@@ -422,6 +422,86 @@ def work(unit):
     return {"counters": counters, "states": len(states) + 1, "failures": [(d2, [list(thaw_op(o)) for o in hk], cls, cnt, det) for (d2, hk, cls), (cnt, det) in failures.items()], "sample": sample}
 
 
+# --------------------------------------------------------------------------- key spellings
+# `a` and `"a"` spell the same Nix attribute.  Whether the mapping treats them as one key or as two is
+# not settled by the property, so only what holds under BOTH readings is judged: a lookup with exactly
+# the spelling of the last set/del on that spelling - with no operation on the other spelling in between -
+# returns the stored value / raises KeyError.
+
+SPELL_DOCS = ["plain", "nested", "scoped", "attrpath", "empty"]
+SPELL_KEYS = ["a", '"a"', "z", '"z"']
+
+
+def _alias(k):
+    return k[1:-1] if k.startswith('"') else '"' + k + '"'
+
+
+def spelling_work(unit):
+    import itertools
+
+    from nix_manipulator import parse
+
+    doc_name, depth = unit
+    alphabet = [("set", k, v) for k in SPELL_KEYS for v in (5, 6)] + [("del", k) for k in SPELL_KEYS] + [("get", k) for k in SPELL_KEYS]
+    n = 0
+    fails = {}
+    for L in range(1, depth + 1):
+        for hist in itertools.product(alphabet, repeat=L):
+            if hist[-1][0] != "get":
+                continue  # judged at lookups
+            k = hist[-1][1]
+            # last operation on spelling k, provided nothing touched the other spelling since
+            expect = None
+            for op in reversed(hist[:-1]):
+                if op[1] == _alias(k) and op[0] != "get":
+                    break
+                if op[1] == k and op[0] in ("set", "del"):
+                    expect = op
+                    break
+            if expect is None:
+                continue
+            src = parse(DOCS[doc_name])
+            ok = True
+            outcome = None
+            for op in hist:
+                r = step_impl(src, op)
+                if op is expect or (op == expect and outcome is None):
+                    pass
+                outcome = r
+                if op is not hist[-1] and op == expect and r[0] != "ok" and expect[0] == "del":
+                    ok = False  # the del itself failed (missing key): nothing to judge
+            if not ok:
+                continue
+            # was the expected op itself successful?  replay up to it
+            src2 = parse(DOCS[doc_name])
+            idx = max(i for i, op in enumerate(hist[:-1]) if op == expect)
+            res = [step_impl(src2, op) for op in hist[: idx + 1]]
+            if res[-1][0] != "ok":
+                continue
+            n += 1
+            got = outcome
+            hs = " ; ".join(show_op(o) for o in hist)
+            if expect[0] == "set":
+                want = vtokens(expect[2])
+                if got[0] != "ok":
+                    fails.setdefault(("set-then-lookup-raises", hs), f"doc {DOCS[doc_name]!r} [{hs}]: lookup of {k} raised {got[1]} although {show_op(expect)} succeeded and the other spelling was not touched since")
+                elif as_tokens(got[1]) != want:
+                    fails.setdefault(("set-then-lookup-wrong", hs), f"doc {DOCS[doc_name]!r} [{hs}]: lookup of {k} returned {as_tokens(got[1])!r}, stored {want!r}")
+            else:
+                if got[0] == "ok":
+                    fails.setdefault(("del-then-lookup-returns", hs), f"doc {DOCS[doc_name]!r} [{hs}]: lookup of {k} returned {as_tokens(got[1])!r} after a successful del")
+                elif got[1] != "KeyError":
+                    fails.setdefault(("del-then-lookup-wrong-exception", hs), f"doc {DOCS[doc_name]!r} [{hs}]: lookup of {k} raised {got[1]} after a successful del")
+    # keep minimal histories: drop a failing history if it still fails the same way with one operation removed
+    keep = []
+    for (cls, hs), det in fails.items():
+        parts = hs.split(" ; ")
+        if any((cls, " ; ".join(parts[:i] + parts[i + 1 :])) in fails for i in range(len(parts) - 1)):
+            continue  # the same failure shows with one operation removed
+        keep.append((cls, doc_name, hs, det))
+    return n, keep
+
+
 def run(prop: str, tier: str) -> core.Report:
     depth = 3 if tier == "quick" else 4
     values = VALUES if tier == "quick" else THOROUGH_VALUES
@@ -443,14 +523,21 @@ def run(prop: str, tier: str) -> core.Report:
             if sig not in fl:
                 fl[sig] = core.Failure(prop="C14", sig=sig, cls=cls, case={"kind": "c14", "doc_name": d2, "doc": DOCS[d2], "history": hm}, detail=f"doc {DOCS[d2]!r} [{hs}] -> {det}", group=cls, raw_count=0)
             fl[sig].raw_count += cnt
+    sres = core.pmap(spelling_work, [(d, 3 if tier == "quick" else 4) for d in SPELL_DOCS], chunksize=1)
+    spell_n = sum(r[0] for r in sres)
+    for _, keep in sres:
+        for cls, dname, hs, det in keep:
+            sig = f"spelling:{cls}|{dname}|{hs}"
+            fl[sig] = core.Failure(prop="C14", sig=sig, cls="spelling:" + cls, case={"kind": "c14-spelling", "doc_name": dname, "history": hs}, detail=det, group="spelling")
     coverage = {
         "states": states,
         "transitions": counters["transitions"],
         "traces_validated_against_impl": counters["transitions"],
         "samples": samples[:4] or [{"note": "none"}],
-        "evaluations": counters["transitions"],
+        "evaluations": counters["transitions"] + spell_n,
         "distinct_nontrivial": states,
-        "rule": "BFS over histories (length <= %d) of %d mapping operations (get/set/del on the document, on the nested set doc['a'], on a non-mapping value, on the scope mapping) from %d documents; state = (rebuilt text, structural snapshot); each transition is a real call judged against a plain dict run in lock-step and against the attribute tree decoded from the rebuilt text" % (depth, len(ops(values)), len(DOCS)),
+        "spelling_histories_judged": spell_n,
+        "rule": "BFS over histories (length <= %d) of %d mapping operations (get/set/del on the document, on the nested set doc['a'], on a non-mapping value, on the scope mapping) from %d documents; state = (rebuilt text, structural snapshot); each transition is a real call judged against a plain dict run in lock-step and against the attribute tree decoded from the rebuilt text; plus every history (length <= %d) of set/del/get over the key spellings a, `a` in quotes, z, `z` in quotes on %d documents, judged at each lookup whose spelling was last set/deleted with no operation on the other spelling in between" % (depth, len(ops(values)), len(DOCS), depth, len(SPELL_DOCS)),
         "exhaustive": True,
         "states_merged": counters["merged"],
         "raw_failing_transitions": counters["raw_failures"],
@@ -459,6 +546,10 @@ def run(prop: str, tier: str) -> core.Report:
 
 
 def replay(case: dict, prop: str):
+    if case.get("kind") == "c14-spelling":
+        n, keep = spelling_work((case["doc_name"], len(case["history"].split(" ; "))))
+        hit = [k for k in keep if k[2] == case["history"]]
+        return bool(hit), f"{hit[:1]}"
     hist = tuple(tuple(o) for o in case["history"])
     r1 = judge(case["doc"], hist)
     r2 = judge(case["doc"], hist)
